@@ -104,6 +104,7 @@ type world struct {
 	fusedInit bool
 	surplus   map[string]*big.Int // balance - liabilities per contract and token at the last check (locks suite)
 	dead      bool                // a receive panicked / failed internally: the inbox is wedged, history abandoned
+	deep      *deep               // state of the deep operations (xcalls.go)
 	pending   int
 }
 
@@ -234,25 +235,26 @@ func (w *world) receiveOne(c *contractDef, s *nom.AccountBlock) {
 	if w.locks {
 		rel = w.expectedRelease(c, s)
 	}
+	// what was really sent, fixed BEFORE the producer code runs (the receive path must not be able to change what the
+	// refund is compared with); after the run the send block is re-read from the ledger by hash
+	orig := snapSend(s)
 	exec, err, pv := w.nd.AutoReceive(s)
 	d := blockDetail(s)
 	if pv != nil {
+		// a panic of GenerateAutoReceive is a crash of the producing pillar, whoever sent the call
 		d["panic"] = fmt.Sprint(pv)
-		if types.IsEmbeddedAddress(s.Address) && s.Amount.Sign() > 0 {
-			// the call was sent by a contract and carries value: its failure needs a refund to that contract, which
-			// applySend rejects (no method for empty data); GenerateAutoReceive then passes a nil block to the verifier
-			out.Oracle(false, "refund-to-contract-sender-fails", d)
-		} else {
-			out.Oracle(false, "receive-panicked", d)
-		}
+		out.Oracle(false, "receive-panicked", d)
 		w.dead = true
 		return
 	}
 	out.Oracle(true, "receive-panicked", nil)
 	if err != nil || exec == nil || exec.Transaction == nil {
 		d["err"] = fmt.Sprint(err)
+		d["persistent"] = w.wedgePersists(c, s)
 		if types.IsEmbeddedAddress(s.Address) && s.Amount.Sign() > 0 {
-			out.Oracle(false, "refund-to-contract-sender-fails", d)
+			// the call was sent by a contract and carries value: one key per (sender contract -> receiver.method), so
+			// that only the reproduced path of known_findings.d/C09.json is matched by it
+			out.Oracle(false, w.contractSendFailureKey(c, s, mname), d)
 		} else {
 			out.Oracle(false, "receive-internal-error", d)
 		}
@@ -271,13 +273,18 @@ func (w *world) receiveOne(c *contractDef, s *nom.AccountBlock) {
 			e = e[:50]
 		}
 		out.Count("receive-refunded:" + key + ":" + e)
-		// exactly the sent amount+token back to the sender, nothing else
+		// exactly the sent amount+token back to the sender, nothing else: compared with the send block as it was before
+		// the receive ran AND as the ledger has it now (re-read by hash)
 		ok := status == 2
-		if s.Amount.Sign() > 0 {
+		led, lerr := w.nd.Ch.GetFrontierMomentumStore().GetAccountBlockByHash(s.Hash)
+		ok = ok && lerr == nil && led != nil && orig.same(led)
+		if orig.amount.Sign() > 0 {
 			ok = ok && len(blk.DescendantBlocks) == 1
 			if ok {
 				r := blk.DescendantBlocks[0]
-				ok = r.ToAddress == s.Address && r.Amount.Cmp(s.Amount) == 0 && r.TokenStandard == s.TokenStandard && r.BlockType == nom.BlockTypeContractSend
+				ok = r.ToAddress == orig.sender && r.Address == orig.to && r.Amount.Cmp(orig.amount) == 0 && r.TokenStandard == orig.zts &&
+					r.BlockType == nom.BlockTypeContractSend && len(r.Data) == 0
+				d["refund_amount"] = Big(r.Amount)
 			}
 		} else {
 			ok = ok && len(blk.DescendantBlocks) == 0
@@ -295,7 +302,7 @@ func (w *world) receiveOne(c *contractDef, s *nom.AccountBlock) {
 		mds = ds
 	}
 	out.Case("vm_receive",
-		Tup(Byt(s.Address.Bytes()), Big(s.Amount), Byt(s.TokenStandard.Bytes()), applied, mds),
+		Tup(Byt(orig.sender.Bytes()), Big(orig.amount), Byt(orig.zts.Bytes()), applied, mds),
 		Tup(I64(int64(status)), ds), map[bool]string{true: "applied", false: "refunded"}[applied])
 
 	if e := w.nd.Insert(exec.Transaction); e != nil {
@@ -418,7 +425,7 @@ func (w *world) pickString(arg string) string {
 	case strings.Contains(la, "url"):
 		return []string{"https://zenon.network", "", "x", strings.Repeat("w", 129)}[w.rng.Intn(4)]
 	case strings.Contains(la, "pubkey") || strings.Contains(la, "publickey"):
-		return []string{g.Secp1PubKeyB64, g.Secp2PubKeyB64, "", "!!notbase64", "AAAA"}[w.rng.Intn(5)]
+		return pickPubKey(w.rng)
 	case strings.Contains(la, "signature"):
 		return []string{"", "AAAA", strings.Repeat("A", 88), "!!"}[w.rng.Intn(4)]
 	case strings.Contains(la, "metadata"):
@@ -736,14 +743,15 @@ func (w *world) activate(spork *types.ImplementedSpork, name string) {
 	panic("spork did not activate")
 }
 
-func callsHistory(rng *rand.Rand, out *Out, regime string, steps int) {
+// focus: half of the steps are deep operations (xcalls.go) on a bridge / liquidity set up by the administrator
+func callsHistory(rng *rand.Rand, out *Out, regime string, steps int, focus bool) {
 	resetSporks()
 	nd := NewNode()
 	defer nd.Stop()
 	defer resetSporks()
 	w := &world{nd: nd, rng: rng, out: out, regime: regime,
 		senders: []*wallet.KeyPair{g.User1, g.User2, g.User3, g.User4, g.User5, g.Pillar1, g.Pillar2, g.Pillar3, g.Pillar4, g.Pillar5, g.Pillar6, g.Spork},
-		tokens:  []types.ZenonTokenStandard{types.ZnnTokenStandard, types.QsrTokenStandard}, made: map[string][]madeEntry{}}
+		tokens:  []types.ZenonTokenStandard{types.ZnnTokenStandard, types.QsrTokenStandard}, made: map[string][]madeEntry{}, deep: &deep{}}
 	switch regime {
 	case "accelerator":
 		w.activate(types.AcceleratorSpork, "spork-accelerator")
@@ -764,8 +772,19 @@ func callsHistory(rng *rand.Rand, out *Out, regime string, steps int) {
 			}
 		}
 	}
+	deepShare := 1 // of 16 steps
+	if focus {
+		deepShare = 8
+		w.deepSetup()
+	}
 	for s := 0; s < steps && !w.dead; s++ {
-		w.randomCall()
+		if rng.Intn(16) < deepShare {
+			w.deepStep()
+		} else if w.deep.bridgeReady && rng.Intn(4) == 0 {
+			w.randomCallTo(cBridge)
+		} else {
+			w.randomCall()
+		}
 		if rng.Intn(3) == 0 {
 			w.settle()
 		}
@@ -778,10 +797,18 @@ func callsHistory(rng *rand.Rand, out *Out, regime string, steps int) {
 	if !w.dead {
 		w.settle()
 		w.settle()
-		// nothing is left queued: no accepted input wedged an inbox
+		// nothing is left queued: no accepted input wedged an inbox (a failure during the final settle is reported there)
 		for _, c := range contracts {
+			if w.dead {
+				break
+			}
 			h := nd.InboxHead(c.Addr)
-			out.Oracle(h == nil, "inbox-drained", M{"contract": c.Name})
+			dd := M{"contract": c.Name}
+			if h != nil {
+				dd = blockDetail(h)
+				dd["height"] = U64(nd.FrontierHeight())
+			}
+			out.Oracle(h == nil, "inbox-drained", dd)
 		}
 	}
 	_ = bytes.Equal
@@ -790,6 +817,6 @@ func callsHistory(rng *rand.Rand, out *Out, regime string, steps int) {
 func RunCalls(rng *rand.Rand, n int, out *Out, _ []string) {
 	shortenConstants()
 	for h := 0; h < n; h++ {
-		callsHistory(rng, out, regimes[h%len(regimes)], 60+rng.Intn(60))
+		callsHistory(rng, out, regimes[h%len(regimes)], 60+rng.Intn(60), (h/len(regimes))%2 == 1)
 	}
 }
